@@ -467,6 +467,8 @@ class Theory:
             I.ctx.assume(t.d_primal(r) == pt)
             I.ctx.assume(t.d_tangent(r) == tt)
             I.ctx.assume(t.d_is_tree(r))
+            if getattr(I, "INCR", None) is not None:
+                I.INCR.link(r)
             I.ctx.assume(z3.Implies(tt == t.nc_tree(pt), t.d_nc_all(r)))
             I.ctx.assume(z3.Implies(z3.And(tt == t.nc_tree(pt), t.d_primal(pt) == pt), r == t.mk_nc(pt)))
             return UVal(r, p.cls if isinstance(p, UVal) else None)
